@@ -159,7 +159,7 @@ def build_set(s, stage_dir, tier, wdir):
 
 def run_cbmc(s, gb, wdir, tier, extra=None, timeout=None):
     log = os.path.join(wdir, "log.txt")
-    flags = ["--object-bits", str(s.get("object_bits", 12)), "--json-ui"]
+    flags = ["--object-bits", str(s.get("object_bits", 8)), "--json-ui"]
     cb = list(s.get("cbmc", []))
     if tier == "thorough":
         cb = list(s.get("cbmc_thorough", cb))
@@ -237,9 +237,8 @@ def run_set(s, stage_dir, tier):
         name = r.get("property", "")
         st = r.get("status", "")
         loc = r.get("sourceLocation", {})
-        m = re.match(r"(.*)\.loop_invariant_(base|step)\.\d+$", name)
-        if m and st != "":
-            loops_seen.add((name.split(".")[0], loc.get("line")))
+        if re.match(r".*\.loop_invariant_base\.\d+$", name):
+            loops_seen.add(name)
         if any(x in desc for x in exp_fail):
             n_canary_seen += 1
             if st != "FAILURE":
@@ -340,6 +339,8 @@ def trace_for(s, res, ob, tier):
                 if r.get("property") == ob["name"] and "trace" in r:
                     for st in r["trace"]:
                         if st.get("stepType") == "assignment" and not st.get("hidden"):
+                            if st.get("sourceLocation", {}).get("function", "") in ("__CPROVER_initialize", "__CPROVER__start"):
+                                continue
                             lhs = st.get("lhs", "")
                             if lhs.startswith("__CPROVER") or "$tmp" in lhs or "return_value" in lhs and "dfcc" in lhs:
                                 continue
@@ -357,7 +358,7 @@ def write_replay(pid, s, res, ob, tier, idx):
     d = os.path.join(VERIF, "replays")
     os.makedirs(d, exist_ok=True)
     path = os.path.join(d, "%s-%s-%d.txt" % (pid, re.sub(r"[^A-Za-z0-9_.-]", "_", s["id"]), idx))
-    tr = trace_for(s, res, ob, tier)
+    tr = trace_for(s, res, ob, tier) if idx <= 3 else "(trace omitted: more than 3 failing obligations in this run; re-run with --sets %s)" % s["id"]
     native_note = "no-failing-input-found"
     hook = s.get("replay")
     native_out = ""
@@ -491,7 +492,7 @@ def main(argv):
         level = "proof" if (proof_ob > 0 and proof_ok == proof_ob) else "other"
         cov = {
             "obligations": proof_ob, "discharged": proof_ok,
-            "checker_cmd": "goto-cc --function <harness> <spec>.c -I<stage> ; goto-instrument --dfcc <harness> --enforce-contract f/f_c --replace-call-with-contract g/g_c [--apply-loop-contracts] ; cbmc --object-bits 12 (per set; exact lines under sets[].cmds)",
+            "checker_cmd": "goto-cc --function <harness> <spec>.c -I<stage> ; goto-instrument --dfcc <harness> --enforce-contract f/f_c --replace-call-with-contract g/g_c [--apply-loop-contracts] ; cbmc --object-bits 8..12 (per set; exact lines under sets[].cmds)",
             "trusted_base": meta.get("trusted_base", []) + [
                 "CBMC 6.11.0 (goto-cc C front end, goto-instrument DFCC, symex, SAT back end) and its models of malloc/free/memcpy/memset/strcmp",
                 "staging rules R1 (loop contracts injected on the loop header line) and R2 (error call sites made non-variadic for DFCC runs), both must-fire and undone byte-for-byte by the faithfulness check on every run"],
